@@ -3365,3 +3365,110 @@ func E11SubpathLoops(c *core.Ctx, r *core.Report) {
 	r.Count("E11.subpath-loops", n)
 	r.Floor("E11.subpath-loops", 2)
 }
+
+// E11ViewBoxMirror: the width and the height of the SVG canvas are computed by mirror-image statements.
+func E11ViewBoxMirror(c *core.Ctx, r *core.Report) {
+	r.Rule("E11.viewbox-mirror", "svgParser.parseViewBox computes the canvas width from (attrWidth, viewbox[0], viewbox[2]) and the height from (attrHeight, viewbox[1], viewbox[3]) by two statements that are mirror images: after renaming of locals (alpha-normalisation numbers them by first occurrence, so a stray reference to the other axis' attribute changes the numbering) and mapping the viewBox indices 0→1, 2→3 they are identical. A width attribute consulted in the height statement makes the height depend on whether the *width* is a percentage")
+	p := c.MustPkg("")
+	fd := core.MustFuncDecl(p, "svgParser.parseViewBox")
+	r.Func("canvas.svgParser.parseViewBox")
+	// the two top-level if statements that assign the two float results
+	var ifs []*ast.IfStmt
+	for _, st := range fd.Body.List {
+		if is, ok := st.(*ast.IfStmt); ok && is.Else != nil {
+			assignsFloat := false
+			ast.Inspect(is.Body, func(n ast.Node) bool {
+				if as, ok := n.(*ast.AssignStmt); ok && as.Tok == token.ASSIGN && len(as.Lhs) == 1 {
+					if id, ok := as.Lhs[0].(*ast.Ident); ok {
+						if t := p.TypesInfo.TypeOf(id); t != nil {
+							if b, ok := t.Underlying().(*types.Basic); ok && b.Kind() == types.Float64 {
+								assignsFloat = true
+							}
+						}
+					}
+				}
+				return true
+			})
+			if assignsFloat {
+				ifs = append(ifs, is)
+			}
+		}
+	}
+	key := "canvas.svgParser.parseViewBox|width and height statements are mirror images"
+	if len(ifs) != 2 {
+		r.Fail("E11.viewbox-mirror", key, c.Pos(fd.Pos()), fmt.Sprintf("expected two if/else statements assigning the width and the height, found %d", len(ifs)))
+		return
+	}
+	a := c.Norm(p, ifs[0])
+	b := c.Norm(p, ifs[1])
+	mapped := strings.NewReplacer("[0]", "[1]", "[2]", "[3]").Replace(a)
+	if mapped == b {
+		r.OK("E11.viewbox-mirror", key, c.Pos(ifs[1].Pos()), "")
+	} else {
+		r.Fail("E11.viewbox-mirror", key, c.Pos(ifs[1].Pos()), fmt.Sprintf("the height statement is not the mirror image of the width statement (width, indices mapped: %s; height: %s)", mapped, b))
+	}
+	r.Count("E11.viewbox-mirror", 1)
+}
+
+// E11DerivedScale: FontFace.MmPerEm is computed from the final FontFace.Size.
+func E11DerivedScale(c *core.Ctx, r *core.Report) {
+	r.Rule("E11.derived-scale", "a FontFace stores its scale twice: Size (used by the PDF Tf operator, the SVG font size and the line breaker's glyph size) and MmPerEm = Size / unitsPerEm (used by TextWidth, span widths and positions, toPath). In every function that assigns MmPerEm from Size no assignment to that face's Size follows it: a later `Size *= scale` (sub- and superscripts) leaves the two scales different, and the PDF pen then advances by a different amount than the layout and the path rendering")
+	p := c.MustPkg("")
+	info := p.TypesInfo
+	n := 0
+	for _, fd := range core.AllFuncDecls(p) {
+		if fd.Body == nil || strings.HasSuffix(c.Fset.Position(fd.Pos()).Filename, "_test.go") {
+			continue
+		}
+		fname := "canvas." + core.FuncName(fd)
+		ord := 0
+		ast.Inspect(fd.Body, func(m ast.Node) bool {
+			as, ok := m.(*ast.AssignStmt)
+			if !ok || len(as.Lhs) != 1 || len(as.Rhs) != 1 {
+				return true
+			}
+			sel, ok := as.Lhs[0].(*ast.SelectorExpr)
+			if !ok || sel.Sel.Name != "MmPerEm" {
+				return true
+			}
+			if t := info.TypeOf(sel.X); t == nil || !isNamed(t, "tdewolff/canvas", "FontFace") {
+				return true
+			}
+			base := types.ExprString(sel.X)
+			fromSize := false
+			ast.Inspect(as.Rhs[0], func(k ast.Node) bool {
+				if s2, ok := k.(*ast.SelectorExpr); ok && s2.Sel.Name == "Size" && types.ExprString(s2.X) == base {
+					fromSize = true
+				}
+				return true
+			})
+			if !fromSize {
+				return true
+			}
+			n++
+			ord++
+			key := fmt.Sprintf("%s|MmPerEm #%d computed from the final Size", fname, ord)
+			var later ast.Node
+			ast.Inspect(fd.Body, func(k ast.Node) bool {
+				a2, ok := k.(*ast.AssignStmt)
+				if !ok || a2.Pos() <= as.End() {
+					return true
+				}
+				for _, l := range a2.Lhs {
+					if s2, ok := l.(*ast.SelectorExpr); ok && s2.Sel.Name == "Size" && types.ExprString(s2.X) == base && later == nil {
+						later = a2
+					}
+				}
+				return true
+			})
+			if later == nil {
+				r.OK("E11.derived-scale", key, c.Pos(as.Pos()), "")
+			} else {
+				r.Fail("E11.derived-scale", key, c.Pos(later.Pos()), fmt.Sprintf("`%s` changes the face's Size after MmPerEm was derived from it: the two scales of the face disagree", c.Src(later)))
+			}
+			return true
+		})
+	}
+	r.Count("E11.derived-scale-sites", n)
+	r.Floor("E11.derived-scale-sites", 1)
+}
